@@ -705,31 +705,32 @@ Fixpoint trace (f : cfg) (s : state) (h : list op) : list result :=
   end.
 
 (** ** Blocks
-    A block is a list of transactions executed one after the other; the executor stores the service records a
-    transaction posted into its cache right after that transaction (applyTx), so a request later in the same block
-    sees them.  [c0] is the cache as it was when the block started: with [d_cache_deferred] a request inside the
-    block decides on that one. *)
-Definition step_at (f : cfg) (c0 : smap) (s : state) (o : op) : result :=
+    A block is a list of transactions executed one after the other.  Two stages of a request look at different
+    moments: the proofs of ALL requests of a block are verified before its first transaction is applied
+    (BlockExecutor.processExecuteEvent calls verifyProofs first), so the proof stage sees the state [s0] the block
+    started from; the service gate runs inside the transaction, and the executor stores the service records a
+    transaction posted into its cache right after that transaction (applyTx), so the gate of a request later in the
+    same block sees them.  With [d_cache_deferred] the gate decides on the cache as it was when the block started. *)
+Definition step_at (f : cfg) (s0 : state) (s : state) (o : op) : result :=
   match o with
   | OIbtp src dst =>
-      if d_cache_deferred f
-      then {| r_ok := true; r_log := []; r_state := s;
-              r_out := outcome_code (if negb (proof_ok s src) then OProof else gate (view c0 (svcs s)) src dst) |}
-      else step f s o
+      {| r_ok := true; r_log := []; r_state := s;
+         r_out := outcome_code (if negb (proof_ok s0 src) then OProof
+                                else gate (view (if d_cache_deferred f then cache s0 else cache s) (svcs s)) src dst) |}
   | _ => step f s o
   end.
 
-Fixpoint trace_block (f : cfg) (c0 : smap) (s : state) (ops : list op) : list result * state :=
+Fixpoint trace_block (f : cfg) (s0 : state) (s : state) (ops : list op) : list result * state :=
   match ops with
   | [] => ([], s)
-  | o :: t => let r := step_at f c0 s o in
-              let '(rs, s') := trace_block f c0 (r_state r) t in (r :: rs, s')
+  | o :: t => let r := step_at f s0 s o in
+              let '(rs, s') := trace_block f s0 (r_state r) t in (r :: rs, s')
   end.
 
 Fixpoint trace_blocks (f : cfg) (s : state) (bs : list (list op)) : list result :=
   match bs with
   | [] => []
-  | b :: t => let '(rs, s') := trace_block f (cache s) s b in (rs ++ trace_blocks f s' t)%list
+  | b :: t => let '(rs, s') := trace_block f s s b in (rs ++ trace_blocks f s' t)%list
   end.
 
 (** * Observations, property predicates, judge *)
